@@ -243,6 +243,13 @@ def interp_classes(model, rep):
                 ok = False
                 rep.violation("R1", "components.%s.__init__" % cname, "%s:%d" % (rel, fn.lineno), "%s.%s is stored as %s: the magnitude of argument '%s' is not taken, negative table entries / axes survive" % (
                     cname, attr, ast.unparse(st[0].value) if st else "nothing", params[pi]), "%s.%s raw" % (cname, attr))
+        # apart from those stores the constructor works on the stored magnitudes, never on the raw arguments
+        stores = [x for x in ast.walk(fn) if isinstance(x, ast.Assign) and ast.unparse(x.targets[0]) in {"self." + a for a in attrs}]
+        inside = {id(y) for x in stores for y in ast.walk(x)}
+        for x in ast.walk(fn):
+            if isinstance(x, ast.Name) and isinstance(x.ctx, ast.Load) and x.id in params and id(x) not in inside:
+                ok = False
+                rep.violation("R1", "components.%s.__init__" % cname, "%s:%d" % (rel, x.lineno), "%s reads the raw argument '%s' after storing its magnitude: a negative table entry / axis value reaches the interpolation" % (cname, x.id), "%s raw use of %s" % (cname, x.id))
         rep.instance("R1", "components.%s stores magnitudes" % cname, "%s:%d" % (rel, fn.lineno), ok)
     fn = model.own_method("_Interp0d", "_interp")
     rets = [x for x in ast.walk(fn) if isinstance(x, ast.Return)]
